@@ -954,16 +954,31 @@ class ICalendarFile(File):
             if not segments:
                 yield True
             elif segments[0].startswith("P="):
-                assert len(segments) == 1
                 try:
                     p = c[segments[0][2:]]
                 except KeyError:
-                    pass
+                    continue
+                # A property that occurs more than once is a list
+                values = [
+                    v for v in (p if isinstance(p, list) else [p]) if v is not None
+                ]
+                if len(segments) == 1:
+                    for v in values:
+                        yield v.to_ical()
+                elif len(segments) == 2 and segments[1].startswith("A="):
+                    # Values of a parameter, as asked for by
+                    # PropertyFilter.index_keys() for param-filters
+                    for v in values:
+                        try:
+                            param = v.params[segments[1][2:]]
+                        except (AttributeError, KeyError):
+                            continue
+                        for pv in (
+                            param if isinstance(param, (list, tuple)) else [param]
+                        ):
+                            yield str(pv).encode("utf-8")
                 else:
-                    # A property that occurs more than once is a list
-                    for v in p if isinstance(p, list) else [p]:
-                        if v is not None:
-                            yield v.to_ical()
+                    raise AssertionError(f"segments: {segments!r}")
             else:
                 raise AssertionError(f"segments: {segments!r}")
 
